@@ -66,7 +66,7 @@ def add_twin(r, tree):
 
 def make_scenario(spec, seed, idx):
     r = core.rng_for(ID, seed, idx)
-    tree = progs.gen_tree(r, max_depth=r.choice((1, 2, 3, 4)))
+    tree = progs.gen_tree(r, max_depth=r.choice((1, 2, 3, 4, 4, 6)), nfiles=r.choice((None, None, None, 6, 8)))
     if r.random() < 0.2:
         add_twin(r, tree)
     if r.random() < 0.8:
